@@ -7,12 +7,12 @@ PROPS_MODULE = "FalconProofs.Props.C15"
 LEVEL = "proof"
 HISTORY_SEP = " ; "
 RULE = ("one case = one history of editing operations (new_block, uedge, cedge, entry, exit, op, bappend, rmins, temp, "
-        "merge, append, insert; failing calls included) over three graphs that start empty; after every operation the "
+        "merge, append, insert, and the real BlockTranslationResult::blockify; failing calls included) over three graphs that start empty; after every operation the "
         "whole graph (blocks, instruction indices and operations, edges and guards, entry, exit, the three counters, "
         "falcon's successor/predecessor queries) is compared with the Lean model, the consistency conditions and the "
         "(length<=5) language digests with the specification. Generators: all graphs on 1-2 blocks x every edge "
         "absent/unconditional/conditional x every entry/exit then merge; sampled graphs on 3-4 blocks; chain/cycle/"
-        "self-loop rich graphs then merge; blockify-like histories (instruction graphs appended/inserted then merged); "
+        "self-loop rich graphs then merge; blockify-like histories (instruction graphs appended/inserted then merged, a third through the real blockify); "
         "random histories of 1-40 operations. distinct = distinct request line; non-trivial = the history contains a "
         "merge that removed a block, or a successful append/insert of a graph with >= 2 blocks")
 TRUSTED = [
